@@ -640,8 +640,9 @@ def formatnum_fn(
     else:
         sep = ctx.LOCALIZATION_DATA["grouping_separator"]
 
-    if sep in arg0:
-        # separator only allowed when R)eversing
+    if sep != "." and sep in arg0:
+        # separator only allowed when R)eversing (a "." in the raw input is
+        # always the decimal point)
         return arg0
 
     decimal_point = ctx.LOCALIZATION_DATA["decimal_point"]
@@ -700,11 +701,13 @@ def _formatnum_reverse(ctx: "Wtp", arg0: str) -> str:
 
     # Kludge for French; the locale data has non-breaking spaces as the
     # separators, but it seems clear we must also allow normal spaces
+    # Remove the separators before converting the decimal point: the
+    # separator may be "." itself
     if sep == "\xa0":  # non-breaking space
-        return arg0.replace(decimal, ".").replace(sep, "").replace(" ", "")
+        return arg0.replace(sep, "").replace(" ", "").replace(decimal, ".")
 
     # Currently only doing the minimum by removing thousand separators
-    return arg0.replace(decimal, ".").replace(sep, "")
+    return arg0.replace(sep, "").replace(decimal, ".")
 
 
 def dateformat_fn(
